@@ -1,18 +1,21 @@
 # run parameters and manifest texts of the C04 check (read by ../props.py)
-PROP = dict(
-    engine="stack", test="TestC04", level="exploration",
-    quick=dict(checks=240, shards=12, timeout=1200),
-    thorough=dict(checks=3000, shards=14, timeout=3400),
-    rule="rapid draws 0-3 external extensions with subscriptions from {INVOKE, SHUTDOWN}, optionally one INVOKE-subscribed internal "
-         "extension, 2-4 consecutive invocations and, per invocation, a random order (R.response before R.next) in which the runtime's "
-         "response, the runtime's next and the next of every subscribed extension happen, the last party held back behind a 30-100 ms quiet "
-         "window; trace header random or absent. Oracle: every subscriber receives exactly one INVOKE event per invocation with the "
-         "runtime's request id, the ARN, a deadline within 5 ms of the runtime's and the caller's trace value; non-subscribers none; the "
-         "caller's return is never sequenced before the issue of R.response, R.next or a subscriber's next of that invocation; ids arrive "
-         "in invocation order; every invocation succeeds. Non-trivial: >=2 invocations with a subscribed and an unsubscribed extension, or "
-         "the held-back party is an extension.",
-    assumptions=["fake process supervisor (DESIGN 3.4)"],
-    level_text="random search over subscription sets and return orders (latch-enforced) across consecutive invocations against the real invoke orchestration.",
-    level_note="orders at the granularity of whole API calls; invocations are sequential (C10 covers concurrent callers)",
-    technique="property-based testing (rapid): generated schedules enforced by latches, history invariant effect-vs-issue plus event content equality",
-)
+PROP = {'engine': 'stack',
+ 'test': 'TestC04',
+ 'level': 'exploration',
+ 'quick': {'checks': 240, 'shards': 12, 'timeout': 1200},
+ 'thorough': {'checks': 3000, 'shards': 14, 'timeout': 3400},
+ 'rule': 'rapid draws 0-3 external extensions with subscriptions from {INVOKE, SHUTDOWN}, optionally one INVOKE-subscribed internal extension, 2-4 '
+         "consecutive invocations and, per invocation, a random order (R.response before R.next) in which the runtime's response, the runtime's next "
+         'and the next of every subscribed extension happen, the last party held back behind a 30-100 ms quiet window; trace header random or '
+         "absent. Oracle: every subscriber receives exactly one INVOKE event per invocation with the runtime's request id, the ARN, a deadline "
+         "within 5 ms of the runtime's and the caller's trace value; non-subscribers none; the caller's return is never sequenced before the issue "
+         "of R.response, R.next or a subscriber's next of that invocation; ids arrive in invocation order; every invocation succeeds. Non-trivial: "
+         '>=2 invocations with a subscribed and an unsubscribed extension, or the held-back party is an extension. Later addition: `prelude` - a '
+         'first generation of processes fails one invocation (the runtime exits after its next, or extension e0 exits while the runtime works) so '
+         'that the judged invocations run in the environment started after that reset, the first of them carrying the re-initialisation inside it.',
+ 'assumptions': ['fake process supervisor (DESIGN 3.4)'],
+ 'level_text': 'random search over subscription sets and return orders (latch-enforced) across consecutive invocations against the real invoke '
+               'orchestration.',
+ 'level_note': 'orders at the granularity of whole API calls; invocations are sequential (C10 covers concurrent callers)',
+ 'technique': 'property-based testing (rapid): generated schedules enforced by latches, history invariant effect-vs-issue plus event content '
+              'equality'}
